@@ -198,6 +198,15 @@ acl_ip_data::DecodeMask(const char *asc, Ip::Address &mask, int ctype)
     if ((sscanf(asc, "%d%c", &a1, &junk)==1) &&
             (a1 <= 128) && (a1  >= 0)
        ) {
+        if (a1 == 0) {
+            // A zero-length prefix has no network bits. Ip::Address::applyMask(0, ...)
+            // yields the all-ones "no mask" value instead, which matches addr1 only.
+            if (ctype == AF_INET6) {
+                mask.setAnyAddr();
+                return true;
+            }
+            return mask.applyMask(96, AF_INET6); // keep the v4-mapped prefix
+        }
         return mask.applyMask(a1, ctype);
     }
 
